@@ -131,12 +131,13 @@ def ts_case(rng, count):
     t = 0
     timesigs, anchors = [], []
     for i in range(count):
-        u = i % 65 if i < 200 else rng.choice([rng.randint(0, 64), rng.randint(0, 10**9), 10**9, 4, 0])
+        u = i % 65 if i < 200 else rng.choice([rng.randint(0, 64), rng.randint(0, 10**9), 10**9, 4, 0, rng.randint(10, 99), rng.randint(100, 9999),
+                                                   rng.randint(10**20, 10**40)])
         e = [None] + list(range(17))
         ex = e[i % 18] if i < 400 else rng.choice(e)
         timesigs.append([t, u, ex])
         if i % 3 == 0:
-            anchors.append([t, rng.choice([0, 1, 999999, 10**6, rng.randint(0, 10**13), 10**13])])
+            anchors.append([t, rng.choice([0, 1, 999999, 10**6, rng.randint(0, 10**13), 10**13, rng.randint(10**13, 10**16)])])
         t += rng.choice([1, 1, 2, 7, 1000])
     return {"resolution": res, "tempos": [[0, 10**9]], "timesigs": timesigs, "anchors": anchors}
 
